@@ -2,6 +2,8 @@ import Skglm.Driver.Ops
 import Skglm.Driver.OpsDatafit
 import Skglm.Driver.OpsCD
 import Skglm.Driver.OpsValidate
+import Skglm.Driver.OpsEst
+import Skglm.Driver.OpsSolvers
 open Skglm Skglm.Proto
 
 def answer (line : String) : String :=
@@ -9,7 +11,7 @@ def answer (line : String) : String :=
   match toks with
   | [] => "err:empty"
   | op :: args =>
-    match (Skglm.Ops.penOps op <|> Skglm.Ops.dfOps op <|> Skglm.Ops.blkOps op <|> Skglm.Ops.cdOps op <|> Skglm.Ops.valOps op) with
+    match (Skglm.Ops.penOps op <|> Skglm.Ops.dfOps op <|> Skglm.Ops.blkOps op <|> Skglm.Ops.cdOps op <|> Skglm.Ops.valOps op <|> Skglm.Ops.estOps op <|> Skglm.Ops.solverOps op) with
     | none => s!"err:unknown-op:{op}"
     | some p =>
       match p.run args with
